@@ -115,10 +115,11 @@ Not applicable: that the position lies in the first malformed assignment (nom's 
         let offset_of_line = |n: usize| -> usize { lines.iter().take(n - 1).map(|l| l.len() + 1).sum() };
         let param = f.sig.inputs.iter().filter_map(|a| match a { syn::FnArg::Typed(t) => Some(tok(&t.pat)), _ => None }).next().unwrap_or("input".into());
         // the failing line has one digit while the excerpt reaches two-digit lines (labels are padded), and two digits
-        for (file, err_line) in [(None, 10usize), (Some("dir/x.asn"), 10), (None, 9), (Some("dir/x.asn"), 9)] {
-            let (ctx_line, err_col) = (8usize, 5usize);
+        // .. and with the error on the first character of a line, on the last line of the definition and on its last character
+        for (file, err_line, err_col) in [(None, 10usize, 5usize), (Some("dir/x.asn"), 10, 5), (None, 9, 5), (Some("dir/x.asn"), 9, 5), (None, 10, 1), (None, 9, 1), (None, 11, 1), (None, 10, 13), (None, 8, 1)] {
+            let ctx_line = 8usize;
             let err_offset = offset_of_line(err_line) + err_col - 1;
-            let key = format!("contextualize:file={}:line={}", file.is_some(), err_line);
+            let key = format!("contextualize:file={}:line={}:column={}", file.is_some(), err_line, err_col);
             ctx.oblige("C17.same", &key, true);
             let mut rd = Map::new();
             rd.insert("line".to_string(), Val::int(err_line as i128));
